@@ -5,8 +5,11 @@ CONSTANTS
   Kind = "cached"
   Sizes = {1, 2, 3}
   MaxResize = 0
+  MaxFail = 1
+  KwClass <- KwClasses
   Variant <- EnvVariant
 INVARIANT BodyOnce
 INVARIANT BodyExclusive
+INVARIANT ValueFresh
 VIEW View
 CHECK_DEADLOCK FALSE
